@@ -85,6 +85,14 @@ def set_from_values(eng, st, vs, kkind=None):
     return ("ok", st, s)
 
 
+def _fits(v, kind):
+    try:
+        unwrap(v, kind)
+        return True
+    except Unsupported:
+        return False
+
+
 def dict_from_pairs(eng, st, pairs, kkind=None, vkind=None):
     if not pairs and kkind is None:
         # untyped empty dict: typed lazily at the first store
@@ -97,6 +105,10 @@ def dict_from_pairs(eng, st, pairs, kkind=None, vkind=None):
         return ("ok", st, VObj(d.oid, "dict", "dict"))
     if kkind is None or vkind is None:
         raise Unsupported("dict display with non-scalar entries")
+    if all(isinstance(k, VConc) for k, _ in pairs) and not all(_fits(v, vkind) for _, v in pairs):
+        # literal keys, values of different kinds (e.g. a table of keyword arguments): a record, as above
+        st, d = alloc_obj(st, "dict", {"pure": True, "pyitems": tuple((k.py, v) for k, v in pairs)})
+        return ("ok", st, VObj(d.oid, "dict", "dict"))
     dom = z3.K(sort_of(kkind), z3.BoolVal(False))
     val = z3.K(sort_of(kkind), _default(vkind))
     for k, v in pairs:
@@ -1117,6 +1129,12 @@ def str_of_float(x):
 def bi_float(eng, st, pos, kw):
     v = pos[0]
     if isinstance(v, VConc) and isinstance(v.py, str):
+        if float(v.py) != float(v.py):
+            # float("nan") is no extended real: a contract module may give it an opaque value (hook "float_nan"), else unsupported
+            h = eng.hooks.get("float_nan")
+            if h:
+                return h(eng, st)
+            raise Unsupported("float('nan') is not an extended real")
         return [("ok", st, xr_const(float(v.py)))]
     if isinstance(v, VStr):
         res = []
